@@ -279,7 +279,7 @@ class Acc(object):
         fam = "%s:%s" % (self.task, what_id)
         self.total_viol += 1
         self.family[fam] = self.family.get(fam, 0) + 1
-        if self.family[fam] > FAMILY_CAP or len(self.violations) >= MAX_VIOL:
+        if self.family[fam] > FAMILY_CAP:
             return
         self.violations.append({"key": "%s:%s" % (fam, input_id), "what": what, "input": _j(inp),
                                 "observed": _j(observed), "expected": _j(expected)})
@@ -296,6 +296,18 @@ class Acc(object):
         notes = list(self.notes)
         for name, (cnt, ex) in sorted(self.note_counts.items()):
             notes.append("%s: %d case(s)%s" % (name, cnt, ("; e.g. %s" % (ex,)) if ex else ""))
+        # at most MAX_VIOL entries, every failing family represented, stable order
+        cap = FAMILY_CAP
+        while len(self.violations) > MAX_VIOL and cap > 1:
+            cap -= 1
+            seen, kept = {}, []
+            for v in self.violations:
+                fam = ":".join(v["key"].split(":")[:2])
+                seen[fam] = seen.get(fam, 0) + 1
+                if seen[fam] <= cap:
+                    kept.append(v)
+            self.violations = kept
+        self.violations = self.violations[:MAX_VIOL]
         listed = {}
         for v in self.violations:
             fam = ":".join(v["key"].split(":")[:2])
